@@ -70,13 +70,13 @@ type Case struct {
 
 	// Dimensions added by the audit (zero value = the behaviour of the original
 	// lattice, so older replay artefacts stay valid). See dims_test.go.
-	OwnIB   int32    `json:"own_inbound_base,omitempty"`      // InboundFee of the checked link's OWN policy (must not matter)
-	OwnIR   int32    `json:"own_inbound_rate_ppm,omitempty"`  //
-	Shaper  string   `json:"aux_shaper,omitempty"`            // "", "pass", "bw", "custom"
-	AuxBW   uint64   `json:"aux_bandwidth_msat,omitempty"`    // bandwidth reported by the shaper in mode "bw"
-	Records bool     `json:"custom_records,omitempty"`        // HTLC carries a custom record
-	UpdSrc  string   `json:"update_source,omitempty"`         // "", "fallback", "fetcherr"
-	Prov    string   `json:"policy_provenance,omitempty"`     // "", "ctor", "upd-decoy", "upd-zero"
+	OwnIB   int32    `json:"own_inbound_base,omitempty"`       // InboundFee of the checked link's OWN policy (must not matter)
+	OwnIR   int32    `json:"own_inbound_rate_ppm,omitempty"`   //
+	Shaper  string   `json:"aux_shaper,omitempty"`             // "", "pass", "bw", "custom", "err-handle", "err-bw", "bw-link", "bw-amt"
+	AuxBW   uint64   `json:"aux_bandwidth_msat,omitempty"`     // mode "bw": bandwidth reported; "bw-link": constant subtracted from the channel's figure; "bw-amt": 0 = reports amount-1, 1 = reports the amount
+	Records bool     `json:"custom_records,omitempty"`         // HTLC carries a custom record
+	UpdSrc  string   `json:"update_source,omitempty"`          // "", "fallback", "fetcherr"
+	Prov    string   `json:"policy_provenance,omitempty"`      // "", "ctor", "upd-decoy", "upd-zero"
 	Win     *WinSpec `json:"policy_update_in_check,omitempty"` // policy installed from inside the check
 }
 
@@ -374,7 +374,14 @@ func (e *evaluator) call(c *Case) (o outcomeT) {
 		records = lnwire.CustomRecords{lnwire.MinCustomRecordsTlvType + 7: []byte{1}}
 	}
 	if c.Shaper != "" {
-		e.sh.handle, e.sh.custom, e.sh.bw = c.Shaper == "bw", c.Shaper == "custom", lnwire.MilliSatoshi(c.AuxBW)
+		switch c.Shaper {
+		case "pass", "bw", "custom", "err-handle", "err-bw", "bw-link", "bw-amt":
+		default:
+			panic("unknown aux shaper mode " + c.Shaper)
+		}
+		handles := c.Shaper == "bw" || c.Shaper == "err-bw" || c.Shaper == "bw-link" || c.Shaper == "bw-amt"
+		e.sh.mode = c.Shaper
+		e.sh.handle, e.sh.custom, e.sh.bw = handles, c.Shaper == "custom", lnwire.MilliSatoshi(c.AuxBW)
 		if c.Win != nil {
 			w := c.Win
 			p2 := models.ForwardingPolicy{MinHTLCOut: lnwire.MilliSatoshi(w.Min), MaxHTLC: lnwire.MilliSatoshi(w.Max),
@@ -688,20 +695,20 @@ func tier(thorough bool) tierCfg {
 		delta:         []uint32{0, 1, 40, 2016},
 		// both safety margins: zero, small, the shipped default (13 / 2016) and
 		// default+1 (a configured value above the default must be honoured too)
-		rd:            []uint32{0, 3, 13, 14},
-		me:            []uint32{0, 1, 2016, 2017},
-		heights:       []uint32{0, 1, 800_000, 1 << 31, 1<<32 - 2017, 1<<32 - 14, 1<<32 - 1},
-		b1Rate:        []uint64{0, 250_000, 500_000, 1_000_000},
-		b1Base:        []uint64{0, 1, 3},
-		b1IB:          []int32{-2, -1, 0, 1},
-		b1IR:          []int32{-1_000_000, -500_000, 0, 333_333},
-		b1Min:         []uint64{0, 5},
-		b1Max:         []uint64{0, 40},
-		b1Worlds:      []string{"fresh", "tiny"},
-		b2Delta:       []uint32{0, 1, 5},
-		b2Rd:          []uint32{0, 1, 3},
-		b2Me:          []uint32{1, 4, 20},
-		b2Windows:     []uint32{0, 800_000, 1<<31 - 32, 1<<32 - 64},
+		rd:        []uint32{0, 3, 13, 14},
+		me:        []uint32{0, 1, 2016, 2017},
+		heights:   []uint32{0, 1, 800_000, 1 << 31, 1<<32 - 2017, 1<<32 - 14, 1<<32 - 1},
+		b1Rate:    []uint64{0, 250_000, 500_000, 1_000_000},
+		b1Base:    []uint64{0, 1, 3},
+		b1IB:      []int32{-2, -1, 0, 1},
+		b1IR:      []int32{-1_000_000, -500_000, 0, 333_333},
+		b1Min:     []uint64{0, 5},
+		b1Max:     []uint64{0, 40},
+		b1Worlds:  []string{"fresh", "tiny"},
+		b2Delta:   []uint32{0, 1, 5},
+		b2Rd:      []uint32{0, 1, 3},
+		b2Me:      []uint32{1, 4, 20},
+		b2Windows: []uint32{0, 800_000, 1<<31 - 32, 1<<32 - 64},
 	}
 	if thorough {
 		t.min = []uint64{0, 1, 1000}
@@ -1164,7 +1171,7 @@ func replay(t *testing.T, run *evid.Run, worlds []*world, path string) int {
 	}
 	c := f.Replay
 	if c.Kind != kindForward && c.Kind != kindTransit {
-		fmt.Printf("INFO target main: the replay artefact belongs to target switch, nothing to do here\n")
+		fmt.Printf("INFO target main: the replay artefact belongs to another target, nothing to do here\n")
 		return run.Finish(map[string]any{"evaluations": 1, "distinct_nontrivial": 2, "rule": "replay (other target)", "samples": []any{path}})
 	}
 	samples := evid.NewSamples(1)
